@@ -697,6 +697,10 @@ impl Core {
     }
 
     fn make_forwarder(context: Arc<Context>) -> Box<dyn Forwarder> {
+        #[cfg(feature = "verif")]
+        if let Some(f) = crate::verif::hooks::forwarder_override() {
+            return f;
+        }
         match &context.settings.forward_protocol {
             ForwardProtocolSettings::Direct(_) => Box::new(DirectForwarder::new(context)),
             ForwardProtocolSettings::Socks5(_) => Box::new(Socks5Forwarder::new(context)),
@@ -721,6 +725,29 @@ impl Core {
             .read()
             .unwrap()
             .select(alpn.iter().map(Vec::as_slice), sni)
+    }
+
+    /// `Core::on_tunnel_request` over a caller-supplied codec (in-memory transport)
+    pub(crate) async fn verif_on_tunnel_request(
+        &self,
+        protocol: tls_demultiplexer::Protocol,
+        codec: Box<dyn HttpCodec>,
+        server_name: String,
+        sni_auth_creds: Option<String>,
+    ) {
+        Self::on_tunnel_request(
+            self.context.clone(),
+            protocol,
+            codec,
+            server_name,
+            sni_auth_creds,
+            log_utils::IdChain::empty(),
+        )
+        .await
+    }
+
+    pub(crate) fn verif_settings(&self) -> Arc<Settings> {
+        self.context.settings.clone()
     }
 
     pub(crate) fn verif_make_forwarder(&self) -> Box<dyn Forwarder> {
